@@ -877,13 +877,13 @@ def c06_known(res, exe):
     if "K1" in known:
         lines = witness_lines(exe, K1_WITNESS)
         cycle = ["".join(chr(c) for c in l) for l in lines[-5:]]
-        if len(lines) == len([k for k in K1_WITNESS if k not in ()]) - 0 or True:
+        if len(cycle) == 5:
             if not any("one" in x for x in cycle):
                 res.known_confirmed.append(("K1", "a kill made after a yank-pop overwrites a ring slot: kills 'three','two','one', C-y M-y, "
                                             "typing, C-u, then cycling with M-y shows %s and never 'one'" % cycle))
     if "K2" in known:
         lines = witness_lines(exe, K2_WITNESS)
-        if lines and "".join(chr(c) for c in lines[-1]) == "ababcd":
+        if lines and "".join(chr(c) for c in lines[-1]).strip() == "ababcd":
             res.known_confirmed.append(("K2", "yank-pop after a yank with a count replaces only one copy: kills 'cd','ab', M-3 C-y gives "
                                         "'ababab', M-y gives 'ababcd'"))
 
